@@ -1124,7 +1124,7 @@ class SessionTransaction(_StateChange, TransactionalContext):
 
             # restore the old key and the object, but only if we didn't
             # expunge; an expunged object is transient and has no key
-            if s not in to_expunge:
+            if s not in to_expunge and s.session_id == self.session.hash_key:
                 s.key = oldkey
                 self.session.identity_map.replace(s)
 
